@@ -7,8 +7,13 @@ CLOSED = ["Noh", "Noh2", "Noh2Cog"] + COG
 PATTERNS = [("SCS", "ul>ur"), ("RCR", "ul<ur")] + [(p, u) for p in ("SCR", "RCS") for u in ("ul<ur", "ul=ur", "ul>ur")]
 
 
-def fams(groups, closed=True, riemann=True, only=None, sedov=True):
+EXTRA = {"EHEP": "ehep", "EPpiston": "eppiston", "Mader": "mader"}
+
+
+def fams(groups, closed=True, riemann=True, only=None, sedov=True, extra=()):
     d = {}
+    for f in extra:
+        d[f] = (EXTRA[f], groups)
     if sedov:
         d["Sedov"] = ("sedov", groups)
     if closed:
